@@ -406,11 +406,30 @@ def memo_trigger(trace, upto):
     return False
 
 
+def twin_trigger(trace, upto, c):
+    """Trigger class of the value-equal-twin defect: the listing of c was read before c was unrolled, while c contained a
+    block that (after the listing's hand-over of the parent relation) equals one of its ancestors by value: same repetition
+    term and no relation of its own."""
+    for k, e in enumerate(trace[:upto]):
+        if e['ev'] == 'Obs' and e['c'] == c and 'snap' in e:
+            comps = e['snap']['comps']
+            twins = any(a['id'] != b['id'] and a['rep'] == b['rep'] and a['rlink']['k'] == b['rlink']['k'] == 'none'
+                        for a in comps.values() for b in comps.values())
+            if twins and any(x['ev'] == 'Apply' and x['c'] == c for x in trace[k:upto]):
+                return True
+    return False
+
+
 def signature(f, ev, trace, prog):
     """Signature used to match a failure against KNOWN_FINDINGS.json (None = never known)."""
     cl = f['clause']
     if f.get('memo') or cl.startswith('C03.memo'):
         return 'stale-memo' if memo_trigger(trace, f['l'] - 1) else None
+    if cl == 'C05.iso.link.late_member':
+        return 'group-member-copied-late'
+    if cl.startswith('C07.') and ev.get('ev') == 'Obs' and ('<<-1,' in f['info'] or cl in ('C07.monotone', 'C07.filter.qubit', 'C07.filter.tag', 'C07.partition')):
+        if twin_trigger(trace, f['l'] - 1, ev['c']):
+            return 'twin-circuit-registry'
     if cl == 'C01.frame' and ev.get('ev') == 'Obs':
         snap = ev['snap']
         o = snap['leaves'].get(f['obj']) or snap['comps'].get(f['obj'])
